@@ -966,6 +966,35 @@ func c09free(c *core.Ctx) {
 		c.Count("free_many_keys_rounds", 1)
 		c.Max("free_max_distinct_keys_on_one_value", int64(nextKey))
 	}
+	// a crowd: 3000 goroutines all locking ONE key once (thousands of waiters on one mutex)
+	if bad.Load() == nil && r.Chance(1, 40) {
+		k := nextKey
+		nextKey++
+		var inside atomic.Int32
+		plain := 0
+		var cw sync.WaitGroup
+		gate := make(chan struct{})
+		for g := 0; g < 3000; g++ {
+			cw.Add(1)
+			go func() {
+				defer cw.Done()
+				<-gate
+				km.acquire(kLock, k)
+				if inside.Add(1) != 1 {
+					flag("free:mutual-exclusion", "two of 3000 goroutines locking one key were inside its write section at once")
+				}
+				plain++
+				inside.Add(-1)
+				km.release(kLock, k)
+			}()
+		}
+		close(gate)
+		cw.Wait()
+		if plain != 3000 {
+			flag("free:lost-update", fmt.Sprintf("plain counter is %d after 3000 write sections on one key", plain))
+		}
+		c.Count("free_crowd_rounds", 1)
+	}
 	// one key used, released and cleared 300 times over, with Try checks in between
 	if bad.Load() == nil && r.Chance(1, 6) {
 		k := nextKey
@@ -1009,6 +1038,77 @@ func c09free(c *core.Ctx) {
 			}
 		}
 		c.Count("free_signed_zero_key_rounds", 1)
+	}
+	// interface-typed keys: the nil interface is a key like any other, and values of
+	// different dynamic types are different keys
+	if bad.Load() == nil && r.Chance(1, 4) {
+		keys := []any{nil, 1, "1", int64(1), [2]int{1, 2}, 1.0, (*int)(nil), error(nil), struct{}{}}
+		// keys[0] and keys[7] are both the nil interface: one key
+		var am sync2.KeyedMutex[any]
+		var arw sync2.KeyedRWMutex[any]
+		if p, pv := core.Catch(func() {
+			for i, k := range keys[:7] {
+				if !am.TryLockKey(k) {
+					flag("free:Try-fails", fmt.Sprintf("KeyedMutex[any]: TryLockKey(%#v) failed on a key never used (keys %d others of other dynamic types are held)", k, i))
+					return
+				}
+				if i%2 == 0 {
+					if !arw.TryLockKey(k) {
+						flag("free:Try-fails", fmt.Sprintf("KeyedRWMutex[any]: TryLockKey(%#v) failed on a key never used", k))
+						return
+					}
+				} else if !arw.TryRLockKey(k) || !arw.TryRLockKey(k) {
+					flag("free:Try-fails", fmt.Sprintf("KeyedRWMutex[any]: TryRLockKey(%#v) failed on a key only read-held or never used", k))
+					return
+				}
+			}
+			for i, k := range keys[:8] {
+				if am.TryLockKey(k) {
+					flag("free:Try-succeeds-on-held-key", fmt.Sprintf("KeyedMutex[any]: TryLockKey(%#v) succeeded while that key is held", k))
+					return
+				}
+				if arw.TryLockKey(k) || (i%2 == 0 || i == 7) && arw.TryRLockKey(k) {
+					flag("free:Try-succeeds-on-held-key", fmt.Sprintf("KeyedRWMutex[any]: a Try succeeded on key %#v while it is held in a conflicting way", k))
+					return
+				}
+			}
+			// a failed TryRLockKey just happened; the next never-seen key must be free for a writer
+			if !arw.TryLockKey(struct{}{}) || !am.TryLockKey(struct{}{}) {
+				flag("free:Try-fails", "TryLockKey failed on a never-used key right after failed Try calls on other (held) keys")
+				return
+			}
+			for i, k := range keys[:7] {
+				am.UnlockKey(k)
+				if i%2 == 0 {
+					arw.UnlockKey(k)
+				} else {
+					arw.RUnlockKey(k)
+					arw.RUnlockKey(k)
+				}
+				if !am.TryLockKey(k) || !arw.TryLockKey(k) {
+					flag("free:Try-fails", fmt.Sprintf("TryLockKey(%#v) failed on an interface-typed key that had just been released", k))
+					return
+				}
+			}
+		}); p {
+			flag("free:panic-on-interface-key", fmt.Sprintf("a keyed mutex with interface-typed keys (nil interface, ints, strings, arrays, nil pointers) panicked: %v", pv))
+		}
+		c.Count("free_interface_key_rounds", 1)
+	}
+	// a failed TryRLockKey on a write-held key, then a never-seen key used first by a writer
+	if bad.Load() == nil && km.rw && r.Chance(1, 3) {
+		a, b := nextKey, nextKey+1
+		nextKey += 2
+		km.acquire(kLock, a)
+		if km.acquire(kTryRLock, a) {
+			flag("free:Try-succeeds-on-held-key", "TryRLockKey succeeded on a write-held key")
+		} else if !km.acquire(kTryLock, b) {
+			flag("free:Try-fails", "TryLockKey failed on a never-used key right after a failed TryRLockKey on another key")
+		} else {
+			km.release(kLock, b)
+			km.release(kLock, a)
+		}
+		c.Count("free_failed_tryrlock_then_new_key", 1)
 	}
 	c.Count("free_cases", 1)
 	c.Count("free_"+kind, 1)
